@@ -58,7 +58,9 @@ def main(run):
                 "ixai/utils/tracker/multi_value.py:MultiValueTracker.get_normalized")
     rnd = random.Random(run.shard_seed)
     fp_events = []
-    np.seterrcall(lambda kind, flag: fp_events.append(kind))
+    # gradual underflow (a float32 smoothed value decaying into the subnormal range during a long absence) is ordinary float
+    # behaviour with no effect beyond the tolerance; only NaN / inf producing events are evidence against "rather than NaN"
+    np.seterrcall(lambda kind, flag: fp_events.append(kind) if "underflow" not in kind else None)
     for h in range(N_HIST[run.tier]):
         typ = TYPES[h % len(TYPES)]
         keys = rnd.choice(KEYSETS)
